@@ -214,7 +214,11 @@ func Step(d Doc, op *Op, r *Res, env Env) StepOut {
 		return fail([]string{"C20", "C01"}, "%s panicked: %s", op.Kind, r.ErrText)
 	}
 	if in(r.Err, EDB, EClosed, EOther) && !expectOther(op) {
-		return fail([]string{"C01"}, "%s failed with unexpected error %s on %s", op.Kind, r.Err, d.State())
+		tags := []string{"C01"}
+		if conditionalKinds[op.Kind] {
+			tags = append(tags, "C02") // a CAS-conditional write is applied iff its CAS is current: it has no other way to fail
+		}
+		return fail(tags, "%s failed with unexpected error %s on %s", op.Kind, r.Err, d.State())
 	}
 	body := ""
 	if op.Body != nil {
